@@ -10,6 +10,7 @@ Line-protocol driver for C12.
 -/
 import Scalibr.Base.Wire
 import Scalibr.Spec.Pipeline
+import Scalibr.Spec.EntryPoints
 open Scalibr Scalibr.Wire Scalibr.Pipeline
 
 def natsOf (s : String) : Option (List Nat) := (listOf s ".").mapM (·.toNat?)
@@ -101,10 +102,19 @@ def handleE2E (k expl orig np fx ins after unfix reqsame rb ra ru : String) : St
     j ++ " cls=" ++ cls
   | _, _, _, _, _, _, _, _, _, _, _, _ => "bad-op"
 
+/-- `ep <kind>`: what Spec.EntryPoints asks of the call -/
+def handleEp (k : Nat) : String :=
+  match Scalibr.EntryPoints.want k with
+  | some .refuse => "r=ok want=refuse"
+  | some .succeed => "r=ok want=succeed"
+  | some .flagged => "r=ok want=flagged"
+  | none => "bad-op"
+
 def handle (line : String) : String :=
   match line.splitOn " " with
   | ["cp", k, ni, vs, ps] => handleCP k ni vs ps
   | ["cd", o, n, orq, nrq] => handleCD o n orq nrq
+  | ["ep", k] => (match k.toNat? with | some k => handleEp k | none => "bad-op")
   | ["e2e2", k, expl, orig, np, fx, ins, after, unfix, reqsame, rb, ra, ru] => handleE2E k expl orig np fx ins after unfix reqsame rb ra ru
   | _ => "bad-op"
 
